@@ -116,7 +116,9 @@ func (s *Service) Start(ctx context.Context) error {
 		return ErrServiceAlreadyStarted
 	}
 
+	started := false
 	s.doStart.Do(func() {
+		started = true
 		// isRunning is already true (set by the Swap above): storing
 		// it again here, after the goroutines have been launched,
 		// would overwrite the false stored by a Run that has already
@@ -185,6 +187,14 @@ func (s *Service) Start(ctx context.Context) error {
 			ec.Add(s.Run(ctx))
 		}()
 	})
+
+	if !started {
+		// the service was started earlier and (since isRunning was
+		// false) has run to completion: it finished after the
+		// isFinished check at the top of this call.
+		s.isRunning.Store(false)
+		return ErrServiceReturned
+	}
 
 	return nil
 }
